@@ -113,11 +113,37 @@ def pngPredictRows (bpp : Nat) : (prev : Bytes) → List (Nat × Bytes) → Byte
   | _, [] => []
   | prev, (t, row) :: rest => UInt8.ofNat t :: pngFilterRow t bpp prev row ++ pngPredictRows bpp row rest
 
-/-! ## TIFF predictor 2 (TIFF 6.0 §14), samples of 8 bits -/
+/-! ## TIFF predictor 2 (TIFF 6.0 §14): horizontal differencing of samples of 1, 2, 4, 8 or 16 bits -/
 
-/-- horizontal differencing of one row of 8-bit samples with `colors` components per pixel -/
-def tiffDiffRow8 (colors : Nat) (row : Bytes) : Bytes :=
-  (List.range row.length).map fun i =>
-    if i < colors then row.getD i 0 else row.getD i 0 - row.getD (i - colors) 0
+/-- sample `k` of a row: 16-bit samples are big endian; samples of 1, 2, 4 bits are packed `8 / bpc` to a
+    byte, the first one in the most significant bits -/
+def sampleGet (bpc : Nat) (row : Bytes) (k : Nat) : Nat :=
+  if bpc = 16 then (row.getD (2 * k) 0).toNat * 256 + (row.getD (2 * k + 1) 0).toNat
+  else if bpc = 8 then (row.getD k 0).toNat
+  else
+    let per := 8 / bpc
+    (row.getD (k / per) 0).toNat / 2 ^ (bpc * (per - 1 - k % per)) % 2 ^ bpc
+
+/-- replace sample `k` by `v mod 2^bpc`, leaving every other bit of the row as it is -/
+def samplePut (bpc : Nat) (row : Bytes) (k v : Nat) : Bytes :=
+  if bpc = 16 then (row.set (2 * k) (UInt8.ofNat (v / 256))).set (2 * k + 1) (UInt8.ofNat v)
+  else if bpc = 8 then row.set k (UInt8.ofNat v)
+  else
+    let per := 8 / bpc
+    let sh := bpc * (per - 1 - k % per)
+    let old := (row.getD (k / per) 0).toNat
+    row.set (k / per) (UInt8.ofNat (old - (old / 2 ^ sh % 2 ^ bpc) * 2 ^ sh + (v % 2 ^ bpc) * 2 ^ sh))
+
+/-- samples `lo … lo + cnt − 1` are replaced by their difference (mod `M`) to the sample `colors` places
+    to the left, all differences taken on the original row -/
+def diffFrom (get : Bytes → Nat → Nat) (put : Bytes → Nat → Nat → Bytes) (M colors : Nat) (row : Bytes) : Nat → Nat → Bytes
+  | _, 0 => row
+  | lo, cnt + 1 =>
+    put (diffFrom get put M colors row (lo + 1) cnt) lo ((get row lo + M - get row (lo - colors)) % M)
+
+/-- one row: the first pixel (`colors` samples) stays, padding bits after the last sample stay -/
+def tiffDiffRow (colors bpc columns : Nat) (row : Bytes) : Bytes :=
+  let n := min (colors * columns) (row.length * 8 / bpc)
+  diffFrom (sampleGet bpc) (samplePut bpc) (2 ^ bpc) colors row colors (n - colors)
 
 end Codecs
